@@ -68,6 +68,10 @@ TEMPLATES['crlf'] = (TEMPLATES['multiline'][0].replace('\n', '\r\n') + '\r\n<i t
 TEMPLATES['cr'] = (TEMPLATES['sites5'][0].replace('\n', '\r') + '\r\r<b>${L(6)}</b>', 7)
 TEMPLATES['crlf-xml'] = ('<?xml version="1.0"?>\r\n' + TEMPLATES['sites5'][0].replace('\n', '\r\n'), 6)
 
+# character entities inside the failing expression (known finding: the report is cut from the source with the
+# length of the decoded text)
+TEMPLATES['entity-in-expression'] = ('<div>${1 &lt; 2 and L(0)}</div>\n<p tal:content="L(1) &gt; 0 or 1">x</p>', 2)
+
 # the same composite expression text twice: the first occurrence is not reached, the second one fails
 TEMPLATES['same-text-twice'] = (
     '<p tal:condition="False">${structure: L(0)}<i tal:content="not: L(1)"/></p>\n<p>${structure: L(0)}</p>\n'
@@ -78,7 +82,8 @@ NTH = {'same-text-twice': 1}      # which occurrence of the expression text is t
 
 # the failing *expression* is the whole expression text the evaluation point belongs to
 EXPR_OVERRIDE = {'guards': {1: 'range(L(1))', 2: 'not L(2)'}, 'string-structure': {2: 'python: L(2)'},
-                 'same-text-twice': {3: 'python: L(3)'}}
+                 'same-text-twice': {3: 'python: L(3)'},
+                 'entity-in-expression': {0: '1 &lt; 2 and L(0)', 1: 'L(1) &gt; 0 or 1'}}
 
 # templates whose expected frame chain has more than one record or must not grow:
 # name -> (text, n leaves, {leaf: [expression texts innermost first]})
